@@ -201,6 +201,21 @@ pub(crate) fn c01_case(rep: &mut Report, m: &Model, seed: u64, idx: u64) {
         let (o, _, _) = async_parse(&data, Plan::full());
         check(rep, "async", o);
     }
+    // path E: the message built through IppAttributes::add alone (shuffled, with replaced decoys), when additions can produce it
+    if idx % 2 == 1 && mirror::addable(m) {
+        match catch(|| {
+            let mut b = mirror::to_ipp_via_add(m, seed ^ idx).to_bytes().to_vec();
+            b.extend_from_slice(&m.data);
+            b
+        }) {
+            Ok(b) => {
+                rep.count("runs_built-by-additions", 1);
+                let (o, _) = sync_parse(&Arc::new(b), Plan::full());
+                check(rep, "built-by-additions", o);
+            }
+            Err(p) => rep.violation(format!("C01:encode-panic:{}", panic_site(&p)), format!("case {idx} (built by additions): {p}"), replay.clone()),
+        }
+    }
     // path C/D: serialisation must not depend on the object's history: serialise once, then change the header
     // (header_mut) or the attributes (attributes_mut) to the target content, and serialise again
     if idx % 3 == 0 {
@@ -329,7 +344,13 @@ pub(crate) fn c03_case(rep: &mut Report, m: &Model, seed: u64, idx: u64, trials:
     let mut noted = false;
     for t in 0..trials {
         rep.eval();
-        let enc = catch(|| mirror::to_ipp(m).to_bytes().to_vec());
+        // every other instance of a message that additions alone can produce is built through IppAttributes::add
+        // (shuffled order, some attributes first added with another value and replaced later), the rest by filling the maps
+        let via_add = t % 2 == 1 && mirror::addable(m);
+        if via_add {
+            rep.count("instances_built_by_additions", 1);
+        }
+        let enc = catch(|| if via_add { mirror::to_ipp_via_add(m, seed ^ idx.wrapping_mul(31) ^ t as u64) } else { mirror::to_ipp(m) }.to_bytes().to_vec());
         let bytes = match enc {
             Ok(b) => b,
             Err(p) => {
